@@ -29,6 +29,20 @@ time_t current_time = 0;
 
 int heart_beat_flag = 0;
 
+/* heart_beat_flag is set by the timer thread, and read and cleared by the backend thread:
+ * the accesses have to be atomic operations, two threads may not use a plain int that way. */
+#if defined(__GNUC__) || defined(__clang__)
+#define HEART_BEAT_FLAG_STORE(v)  __atomic_store_n (&heart_beat_flag, (v), __ATOMIC_SEQ_CST)
+#define HEART_BEAT_FLAG_LOAD()    __atomic_load_n (&heart_beat_flag, __ATOMIC_SEQ_CST)
+#elif defined(_MSC_VER)
+#include <intrin.h>
+#define HEART_BEAT_FLAG_STORE(v)  ((void) _InterlockedExchange ((volatile long *) &heart_beat_flag, (v)))
+#define HEART_BEAT_FLAG_LOAD()    ((int) _InterlockedOr ((volatile long *) &heart_beat_flag, 0))
+#else
+#define HEART_BEAT_FLAG_STORE(v)  ((void) (*(volatile int *) &heart_beat_flag = (v)))
+#define HEART_BEAT_FLAG_LOAD()    (*(volatile int *) &heart_beat_flag)
+#endif
+
 object_t *current_heart_beat;
 
 static platform_timer_t heartbeat_timer = {0}; /* cross-platform heart beat timer */
@@ -57,7 +71,7 @@ static void call_heart_beat (void);
  */
 static void heartbeat_timer_callback(void) {
   async_runtime_t *reactor = get_async_runtime();
-  heart_beat_flag = 1;
+  HEART_BEAT_FLAG_STORE (1);
   if (reactor)
     async_runtime_wakeup(reactor);
 }
@@ -330,7 +344,7 @@ void backend () {
        * goes on. call_heart_beat() clears heart_beat_flag first, so an error in a heart
        * beat does not bring us back into it.
        */
-      if (heart_beat_flag)
+      if (HEART_BEAT_FLAG_LOAD ())
         call_heart_beat ();
 
       /*
@@ -353,7 +367,7 @@ void backend () {
             }
         }
 
-      if (heart_beat_flag || has_pending_commands)
+      if (HEART_BEAT_FLAG_LOAD () || has_pending_commands)
         {
           /* When heart beat is active or commands pending, do not wait in poll */
           timeout.tv_sec = 0;
@@ -530,7 +544,7 @@ static float perc_hb_probes = 100.0;	/* decaying avge of how many complete */
 static void call_heart_beat () {
 
   object_t *ob;
-  heart_beat_flag = 0;
+  HEART_BEAT_FLAG_STORE (0);
   time (&current_time);
   opt_trace (TT_BACKEND|1, "tick: current_time=%u", current_time);
   current_interactive = 0;
@@ -541,7 +555,7 @@ static void call_heart_beat () {
       heart_beat_t *curr_hb;
       num_hb_calls++;
       heart_beat_index = 0;
-      while (!heart_beat_flag)
+      while (!HEART_BEAT_FLAG_LOAD ())
         {
           ob = (curr_hb = &heart_beats[heart_beat_index])->ob;
           /* is it time to do a heart beat ? */
